@@ -1002,3 +1002,34 @@ benign(
     (ALGO, "    for stage_count in range(1, MAX_STAGES):\n\n        stage_chunks = calculate_stage_chunks(read_chunks, write_chunks, stage_count)\n", "    stage_count = 0\n    while stage_count < MAX_STAGES - 1:\n        stage_count += 1\n\n        stage_chunks = calculate_stage_chunks(read_chunks, write_chunks, stage_count)\n"),
 )
 benign("B14h-multspace-guard-flipped", ["C14"], (RECH, "    if start > stop:\n        return list(reversed(multspace(stop, start, num)))\n", "    if stop < start:\n        return list(reversed(multspace(stop, start, num)))\n"))
+
+# ---------------------------------------------------------------- C17 HOIST-1
+MANIP = "cubed/array_api/manipulation_functions.py"
+mutant(
+    "M17h-repeat-validates-inside-the-task",
+    ["C17"],
+    "HOIST-1",
+    (MANIP, "def _repeat(x, repeats, axis=None, chunksize=None, block_id=None):\n    out = nxp.repeat(x, repeats, axis=axis)\n", "def _repeat(x, repeats, axis=None, chunksize=None, block_id=None):\n    if chunksize[axis] * repeats > 2**31:\n        raise ValueError(\"repeat: repeated chunk too large\")\n    out = nxp.repeat(x, repeats, axis=axis)\n"),
+)
+mutant(
+    "M17i-key-function-refuses-closure-value",
+    ["C17"],
+    "HOIST-1",
+    (MANIP, "    def back_key_function(out_key: ChunkKey) -> FunctionArgs[ChunkKey]:\n        out_coords = out_key.coords\n        in_coords = tuple(\n            bi // repeats if i == axis else bi for i, bi in enumerate(out_coords)\n        )\n", "    def back_key_function(out_key: ChunkKey) -> FunctionArgs[ChunkKey]:\n        if axis >= x.ndim:\n            raise IndexError(f\"axis {axis} is out of bounds\")\n        out_coords = out_key.coords\n        in_coords = tuple(\n            bi // repeats if i == axis else bi for i, bi in enumerate(out_coords)\n        )\n"),
+)
+mutant(
+    "M17j-combine-asserts-on-correction-option",
+    ["C17"],
+    "HOIST-1",
+    ("cubed/array_api/statistical_functions.py", "def _var_combine(a, axis=None, correction=None, **kwargs):\n    # _var_combine is called by _partial_reduce which concatenates along the first axis\n    axis = axis[0]\n", "def _var_combine(a, axis=None, correction=None, **kwargs):\n    # _var_combine is called by _partial_reduce which concatenates along the first axis\n    assert correction is None or correction >= 0, \"correction must be non-negative\"\n    axis = axis[0]\n"),
+)
+benign(
+    "B17h-repeat-block-checks-its-block",
+    ["C17"],
+    (MANIP, "def _repeat(x, repeats, axis=None, chunksize=None, block_id=None):\n    out = nxp.repeat(x, repeats, axis=axis)\n", "def _repeat(x, repeats, axis=None, chunksize=None, block_id=None):\n    if x.ndim == 0:\n        raise ValueError(\"repeat: 0-d block\")\n    out = nxp.repeat(x, repeats, axis=axis)\n"),
+)
+benign(
+    "B17i-combine-message-reworded",
+    ["C17"],
+    ("cubed/array_api/statistical_functions.py", "        raise ValueError(f\"Expected two elements in {axis} axis to combine\")\n\n    n_a = nxp.take(a[\"n\"], 0, axis=axis)", "        raise ValueError(f\"Expected exactly two elements in axis {axis} to combine\")\n\n    n_a = nxp.take(a[\"n\"], 0, axis=axis)"),
+)
